@@ -342,16 +342,34 @@ func vc02GenCfg(r *vRand) *vc02Cfg {
 	}
 	c := &vc02Cfg{mode: "backends"}
 	n := 1 + r.intn(3)
-	// url prefixes are never nested (which prefix wins is C13's subject)
+	// url prefixes are never nested (which prefix wins is C13's subject) — but they may be siblings of which
+	// one is a string prefix of the other without being its parent (/one/ and /one2/), in either order,
+	// and may be configured without the final slash
 	layouts := [][]string{
-		{"http://H1/", "http://H2/", "http://H2/"},                     // distinct hosts, roots (n <= 2)
-		{"http://H1/one/", "http://H1/two/", "http://H1/three/"},       // one shared host
-		{"http://H1/one/", "http://H2/", "http://H1/three/"},           // mixed
-		{"https://H1/one/", "http://H1/two/", "http://H2/sub/dir/"},    // schemes, deeper paths
+		{"http://H1/", "http://H2/", "http://H2/"},                  // distinct hosts, roots (n <= 2)
+		{"http://H1/one/", "http://H1/two/", "http://H1/three/"},    // one shared host
+		{"http://H1/one/", "http://H2/", "http://H1/three/"},        // mixed
+		{"https://H1/one/", "http://H1/two/", "http://H2/sub/dir/"}, // schemes, deeper paths
 	}
-	layout := layouts[r.intn(len(layouts))]
-	if n == 3 && layout[1] == layout[2] {
-		layout = layouts[1]
+	siblings := [][]string{
+		{"http://H1/one/", "http://H1/one2/", "http://H1/on/"},
+		{"http://H1/cloud", "http://H1/cloud2", "http://H1/cloud-test/"},
+		{"http://H2/sub/dir/", "http://H2/sub/dir2", "http://H2/sub/d/"},
+		{"http://H1/a/", "http://H1/ab/", "http://H2/a/"},
+		{"https://H1/nc", "https://H1/nc.old/", "http://H1/nc_1/"},
+	}
+	var layout []string
+	if r.chance(1, 2) {
+		layout = append([]string{}, siblings[r.intn(len(siblings))]...)
+		for i := len(layout) - 1; i > 0; i-- { // the order of the configuration decides which entry is tried first
+			j := r.intn(i + 1)
+			layout[i], layout[j] = layout[j], layout[i]
+		}
+	} else {
+		layout = layouts[r.intn(len(layouts))]
+		if n == 3 && layout[1] == layout[2] {
+			layout = layouts[1]
+		}
 	}
 	var secrets [][]byte
 	for i := 0; i < n; i++ {
@@ -451,6 +469,69 @@ func vc02Bytes(r *vRand, n int) []byte {
 	}
 	return b
 }
+
+// vc02Components: the pieces of a URL between the slashes (scheme, "", host, path segments); one
+// trailing slash is not a component.
+func vc02Components(u string) []string { return strings.Split(strings.TrimSuffix(u, "/"), "/") }
+
+// vc02Owner is the generator's own reading of "the backend a URL belongs to" (mode backends): the
+// backend whose URL components are the leading components of u.  Returns a header token.
+func vc02Owner(c *vc02Cfg, u string) string {
+	if u == "" {
+		return "-"
+	}
+	uc := vc02Components(u)
+	for _, b := range c.backends {
+		bc := vc02Components(b.url)
+		if len(bc) > len(uc) {
+			continue
+		}
+		same := true
+		for i := range bc {
+			if bc[i] != uc[i] {
+				same = false
+			}
+		}
+		if same {
+			return "b:" + b.id
+		}
+	}
+	return "?"
+}
+
+// vc02UrlVariants: URLs that belong to the same backend as `u` (same), and URLs in its neighbourhood
+// that do not (near): longer and shorter siblings, other case, other scheme, other host, the parent.
+func vc02UrlVariants(u string) (same, near []string) {
+	t := strings.TrimSuffix(u, "/")
+	i := strings.Index(t, "://")
+	scheme, rest := t[:i], t[i+3:]
+	host, path := rest, ""
+	if j := strings.IndexByte(rest, '/'); j >= 0 {
+		host, path = rest[:j], rest[j:]
+	}
+	same = []string{t, t + "/", t + "/index.php/apps/spreed/", t + "//x"}
+	if path != "" {
+		near = append(near, t+"x/", t+"2/", t+"2", t+"-test/sub/", t+".old/")
+		k := strings.LastIndexByte(t, '/')
+		if len(t)-k > 2 {
+			near = append(near, t[:len(t)-1]+"/", t[:len(t)-1])
+		}
+		near = append(near, t[:k+1]) // the parent
+		if up := strings.ToUpper(path); up != path {
+			near = append(near, scheme+"://"+host+up+"/")
+		}
+	}
+	other := map[string]string{"http": "https", "https": "http"}[scheme]
+	near = append(near, other+"://"+host+path+"/")
+	if strings.HasPrefix(host, "H1") {
+		near = append(near, scheme+"://H2"+host[2:]+path+"/")
+	} else if strings.HasPrefix(host, "H2") {
+		near = append(near, scheme+"://H1"+host[2:]+path+"/")
+	}
+	return
+}
+
+const vc02BackendPath = "/ocs/v2.php/apps/spreed/api/v1/signaling/backend"
 
 func vC02Gen(e *vEnv, r *vRand) []vCase {
 	var cases []vCase
@@ -584,12 +665,25 @@ func vC02Gen(e *vEnv, r *vRand) []vCase {
 				if c.mode == "compat" && strings.Contains(hv, "H1") && strings.HasPrefix(hv, "http") {
 					continue
 				}
-				if c.mode == "backends" && hv == "http://H1/other/" && vc02HasRootOn(c, "H1") {
-					continue
-				}
 				q = base
 				q.hdrTok, q.hdrVal, q.tag = "?", hv, "unknown-backend"
+				if c.mode == "backends" && strings.HasPrefix(hv, "http") {
+					q.hdrTok = vc02Owner(c, hv)
+				}
 				add(q)
+			}
+			// other spellings of the signer's backend url, and urls next to it that belong to another backend or to none
+			if c.mode == "backends" {
+				same, near := vc02UrlVariants(signer.url)
+				for _, hv := range append(same, near...) {
+					q = base
+					q.hdrTok, q.hdrVal = vc02Owner(c, hv), hv
+					q.tag = "backend-url-variant"
+					if q.hdrTok != "b:"+signer.id {
+						q.tag = "backend-url-near-miss"
+					}
+					add(q)
+				}
 			}
 			// envelope: content type, unknown length, size limit
 			q = base
@@ -631,16 +725,35 @@ func vC02Gen(e *vEnv, r *vRand) []vCase {
 				ops = append(ops, fmt.Sprintf("fn %s %s %s %s #fn-prefix", vx([]byte(sum[:rr.intn(len(sum))])), vx(rnd), vx(body), vx(sec)))
 			}
 		}
-		// outgoing: every request kind to every backend
+		// outgoing: every request kind to every backend; in mode backends also to urls next to a backend's
 		if c.mode != "allowall" {
 			kinds := []string{"auth", "room-join", "room-leave", "ping", "session-add", "session-remove"}
+			outOp := func(kind, id, base string) string {
+				if c.mode != "backends" {
+					return fmt.Sprintf("out %s %s", kind, id)
+				}
+				return fmt.Sprintf("out %s %s u=%s", kind, id, vEnc(strings.TrimSuffix(base, "/")+vc02BackendPath))
+			}
 			for _, b := range all {
 				if strings.HasPrefix(b.url, "https:") {
 					continue // the fake backends speak plain http
 				}
 				for _, k := range kinds {
 					if e.thorough() || rr.chance(1, 2) {
-						ops = append(ops, fmt.Sprintf("out %s %s", k, b.id))
+						ops = append(ops, outOp(k, b.id, b.url))
+					}
+				}
+				if c.mode == "backends" {
+					_, near := vc02UrlVariants(b.url)
+					for _, nu := range near {
+						if strings.HasPrefix(nu, "https:") || !(e.thorough() || rr.chance(1, 2)) {
+							continue
+						}
+						id := "-"
+						if t := vc02Owner(c, nu+vc02BackendPath); t != "?" {
+							id = t[2:]
+						}
+						ops = append(ops, outOp(kinds[rr.intn(len(kinds))], id, nu))
 					}
 				}
 			}
@@ -649,15 +762,6 @@ func vC02Gen(e *vEnv, r *vRand) []vCase {
 		cases = append(cases, vCase{Ops: ops})
 	}
 	return cases
-}
-
-func vc02HasRootOn(c *vc02Cfg, host string) bool {
-	for _, b := range c.backends {
-		if b.url == "http://"+host+"/" {
-			return true
-		}
-	}
-	return false
 }
 
 // vc02HeaderLegal: can these bytes be appended to a header value without the request being
@@ -810,6 +914,7 @@ func vC02Exec(t *testing.T, c *vCase) {
 				break
 			}
 			var headers [][2]string
+			lookupNote := ""
 			if hv := kv["u"]; hv != "" {
 				headers = append(headers, [2]string{HeaderBackendServer, w.subst(hv)})
 				// the op's claim about what the header resolves to, checked with the lookup called directly
@@ -823,8 +928,7 @@ func vC02Exec(t *testing.T, c *vCase) {
 					got = "b:" + b.Id()
 				}
 				if got != want {
-					out = "oracle-mismatch:" + got
-					break
+					lookupNote = " lookup=" + got // reported, and the request is made all the same: the judge decides
 				}
 			}
 			if kv["wr"] != "" {
@@ -870,22 +974,24 @@ func vC02Exec(t *testing.T, c *vCase) {
 			if tn > 1 {
 				tn = 1
 			}
-			out = fmt.Sprintf("%d t%d %s", status, tn, es)
-		case len(f) == 3 && f[0] == "out" && w != nil:
+			out = fmt.Sprintf("%d t%d %s%s", status, tn, es, lookupNote)
+		case (len(f) == 3 || len(f) == 4) && f[0] == "out" && w != nil:
 			for _, fk := range w.fakes {
 				fk.take()
 			}
 			var target string
-			if b := w.backendById(f[2]); b != nil {
+			if tu := kv["u"]; tu != "" {
+				target = tu // the url the request goes to, literally
+			} else if b := w.backendById(f[2]); b != nil {
 				if w.cfg.compat != nil {
-					target = "http://H1/nextcloud/"
+					target = "http://H1/nextcloud" + vc02BackendPath
 				} else {
-					target = b.url
+					target = strings.TrimSuffix(b.url, "/") + vc02BackendPath
 				}
 			} else {
-				target = "http://H3.invalid/x/"
+				target = "http://H3.invalid/x" + vc02BackendPath
 			}
-			u, err := url.Parse(w.subst(target) + "ocs/v2.php/apps/spreed/api/v1/signaling/backend")
+			u, err := url.Parse(w.subst(target))
 			if err != nil {
 				break
 			}
